@@ -141,6 +141,88 @@ func registerCrypto(e *Engine) {
 	for _, n := range []string{"P224", "P256", "P384", "P521"} {
 		x["crypto/elliptic."+n] = externNoop // only reached from package initialisers
 	}
+	// ---- AEAD / KDF (see harness/_zzsym/internal/zzsym/models_engine.go) ----
+	type sealApp struct {
+		key, nonce *Term
+		pt         []Value
+		ct         []Value
+	}
+	x["zzsym.KDF"] = func(ex *Exec, c *frame, f *ssa.Function, a []Value) Value {
+		n := int(ex.concretize(a[2].(Int)))
+		fn := UF(fmt.Sprintf("kdf_%d", n), []Sort{SBV(256), SBV(256)}, SBV(8*n))
+		pd, sd := ex.msgDigest(a[0].(Slice)), ex.msgDigest(a[1].(Slice))
+		res := App(fn, SBV(8*n), pd, sd)
+		// collision freeness of the KDF
+		apps, _ := ex.side["kdfApps"].([][3]*Term)
+		for _, o := range apps {
+			if o[2].Sort == res.Sort && o[2].S != res.S {
+				ex.addPC(Implies(Eq(o[2], res), And(Eq(o[0], pd), Eq(o[1], sd))))
+			}
+		}
+		ex.side["kdfApps"] = append(apps, [3]*Term{pd, sd, res})
+		return bvBytes(res, n)
+	}
+	x["zzsym.AEADSeal"] = func(ex *Exec, c *frame, f *ssa.Function, a []Value) Value {
+		key, nonce, pt := a[0].(Slice), a[1].(Slice), a[2].(Slice)
+		if len(key) != 32 || len(nonce) != 12 {
+			ex.unsupported("AEAD model: key must be 32 and nonce 12 bytes")
+		}
+		n := len(pt)
+		var ctT *Term
+		if n == 0 {
+			fn := UF("aeadseal_0", []Sort{SBV(256), SBV(96)}, SBV(128))
+			ctT = App(fn, SBV(128), bvOfBytes(key), bvOfBytes(nonce))
+		} else {
+			fn := UF(fmt.Sprintf("aeadseal_%d", n), []Sort{SBV(256), SBV(96), SBV(8 * n)}, SBV(8*n+128))
+			ctT = App(fn, SBV(8*n+128), bvOfBytes(key), bvOfBytes(nonce), bvOfBytes(pt))
+		}
+		ct := bvBytes(ctT, n+16)
+		seals, _ := ex.side["seals"].([]sealApp)
+		ex.side["seals"] = append(seals, sealApp{bvOfBytes(key), bvOfBytes(nonce), append([]Value(nil), pt...), ct})
+		return ct
+	}
+	x["zzsym.AEADOpen"] = func(ex *Exec, c *frame, f *ssa.Function, a []Value) Value {
+		key, nonce, ct := a[0].(Slice), a[1].(Slice), a[2].(Slice)
+		if len(key) != 32 || len(nonce) != 12 {
+			ex.unsupported("AEAD model: key must be 32 and nonce 12 bytes")
+		}
+		n := len(ct) - 16
+		kT, nT := bvOfBytes(key), bvOfBytes(nonce)
+		// ciphertexts produced by Seal on this path: opens iff same key and nonce
+		seals, _ := ex.side["seals"].([]sealApp)
+		for _, s := range seals {
+			if len(s.ct) != len(ct) {
+				continue
+			}
+			same := ex.bytesEq(ct, s.ct)
+			if ex.branch(same) {
+				if ex.branch(mkBool(And(Eq(kT, s.key), Eq(nT, s.nonce)))) {
+					return Tuple{Slice(append([]Value(nil), s.pt...)), true}
+				}
+				return Tuple{Slice(nil), false} // authenticity
+			}
+		}
+		// a ciphertext of unknown origin: the verdict and the plaintext are
+		// uninterpreted functions of (key, nonce, ciphertext)
+		okF := UF(fmt.Sprintf("aeadok_%d", n), []Sort{SBV(256), SBV(96), SBV(8 * (n + 16))}, SBool)
+		ok := App(okF, SBool, kT, nT, bvOfBytes(ct))
+		if !ex.branch(mkBool(ok)) {
+			return Tuple{Slice(nil), false}
+		}
+		if n == 0 {
+			return Tuple{Slice{}, true}
+		}
+		ptF := UF(fmt.Sprintf("aeadpt_%d", n), []Sort{SBV(256), SBV(96), SBV(8 * (n + 16))}, SBV(8*n))
+		return Tuple{bvBytes(App(ptF, SBV(8*n), kT, nT, bvOfBytes(ct)), n), true}
+	}
+	x["io.ReadFull"] = func(ex *Exec, c *frame, f *ssa.Function, a []Value) Value {
+		// only used with crypto/rand.Reader: fills the buffer with fresh bytes
+		b := a[1].(Slice)
+		if len(b) > 0 {
+			copy(b, ex.freshBytes("rand", len(b)))
+		}
+		return Tuple{CInt(uint64(len(b)), 64), Iface{}}
+	}
 	x["crypto/rand.Read"] = func(ex *Exec, c *frame, f *ssa.Function, a []Value) Value {
 		b := a[0].(Slice)
 		if len(b) > 0 {
